@@ -51,6 +51,8 @@ def result_type(op, a, b):
 
 
 def operand(w, t, nm):
+    if w == "ctv":   # sandbox-resident operand reached through a pointer to const
+        return ("uint64_t c%s" % nm, "auto p%s = mk_tainted<const %s*, S>(c%s); auto& x%s = *p%s;" % (nm, t.cxx, nm, nm, nm), "x" + nm)
     if w == "tv":
         return ("uint64_t c%s" % nm, "auto p%s = mk_tainted<%s*, S>(c%s); auto& x%s = *p%s;" % (nm, t.cxx, nm, nm, nm), "x" + nm)
     if w == "t":
@@ -78,7 +80,7 @@ def src_binary(kind, op, sym, wa, a, wb, b):
         ty = "std::is_same_v<decltype(r), tainted<decltype%s, S>>" % plain
         un = "(uint64_t)r.UNSAFE_unverified()"
     else:
-        hint = "tv" in (wa, wb)
+        hint = "tv" in (wa, wb) or "ctv" in (wa, wb)
         ty = "std::is_same_v<decltype(r), %s>" % ("tainted_boolean_hint" if hint else "tainted<bool, S>")
         if kind == "lg":
             ty = "std::is_same_v<decltype(r), tainted<bool, S>>"
@@ -132,7 +134,7 @@ def src_ref_incdec(op, a):
 # ------------------------------------------------------------------ checks
 def sym_operand(ctx, w, t, nm, base, size):
     """returns (kernel arg, plain value expr of width t.bits, validation values)"""
-    if w == "tv":
+    if w in ("tv", "ctv"):
         c = ctx.sym("c" + nm, 64)
         gb = t.gbits // 8
         ctx.assume(z3.UGE(c, base), z3.ULE(c - base, BV(size - 8, 64)))
@@ -188,17 +190,17 @@ def check_binary(ctx, kind, op, wa, a, wb, b, log=32):
     cross(ctx, kp, rp, "same value and C++ type as the plain expression (a %s b)" % op, cond)
     ctx.expect(kp, ret=1)
     b0 = 0x300000000
-    if "tv" not in (wa, wb):
+    if "tv" not in (wa, wb) and "ctv" not in (wa, wb):
         ctx.validate(k, [[b0, x, y] for x in vecs(a)[:6] for y in vecs(b)[:6] if not (op in ("div", "mod") and y == 0)])
         ctx.validate(r, [[x, y] for x in vecs(a)[:6] for y in vecs(b)[:6] if not (op in ("div", "mod") and y == 0)])
     else:
         for (x, y) in ((5, 3), (11, 1), (2, 7)):
             mem = {}
             ax, bx = x, y
-            if wa == "tv":
+            if wa in ("tv", "ctv"):
                 mem.update({b0 + 0x40 + i: (x >> (8 * i)) & 0xFF for i in range(8)})
                 ax = b0 + 0x40
-            if wb == "tv":
+            if wb in ("tv", "ctv"):
                 mem.update({b0 + 0x80 + i: (y >> (8 * i)) & 0xFF for i in range(8)})
                 bx = b0 + 0x80
             if op in ("div", "mod") and (y & ((1 << min(b.bits, b.gbits)) - 1)) == 0:
@@ -329,6 +331,12 @@ def jobs(tier, seed):
                     items.append((src_binary(kind, op, sym, wa, a, wb, b),
                                   dict(name="%s %s%s %s %s%s" % (kind, wa, a.tag, op, wb, b.tag), fn=check_binary,
                                        kw=dict(kind=kind, op=op, wa=wa, a=a, wb=wb, b=b))))
+        # const-qualified sandbox-resident operands (read-only: binary operators and comparisons)
+        for kind, op, sym in (("ar", "add", "+"), ("ar", "shr", ">>"), ("cm", "lt", "<"), ("ar", "xor", "^")):
+            for wa, wb in (("ctv", "p"), ("t", "ctv")):
+                items.append((src_binary(kind, op, sym, wa, a, wb, b),
+                              dict(name="%s %s%s %s %s%s" % (kind, wa, a.tag, op, wb, b.tag), fn=check_binary,
+                                   kw=dict(kind=kind, op=op, wa=wa, a=a, wb=wb, b=b))))
         for op, sym in UNARY:
             for wa in ("t", "tv"):
                 items.append((src_unary(op, sym, wa, a), dict(name="un %s %s%s" % (op, wa, a.tag), fn=check_unary, kw=dict(op=op, wa=wa, a=a))))
